@@ -42,8 +42,20 @@ def run_one(patch):
 
 
 def main():
-    patches = sys.argv[1:] or sorted(glob.glob(os.path.join(VERIF, "harmless", "*.diff")))
-    res = [run_one(p) for p in patches]
+    patches = [os.path.abspath(a) if os.path.exists(a) else os.path.join(VERIF, "harmless", os.path.basename(a)) for a in sys.argv[1:]] or sorted(glob.glob(os.path.join(VERIF, "harmless", "*.diff")))
+    import json
+    store = os.path.join(VERIF, "harmless", "results.json")
+    old = {}
+    if os.path.exists(store):
+        try:
+            old = {r["patch"]: r for r in json.load(open(store))}
+        except Exception:  # noqa: BLE001
+            old = {}
+    for p in patches:
+        r = run_one(p)
+        old[r["patch"]] = r
+    res = [old[k] for k in sorted(old)]
+    json.dump(res, open(store, "w"), indent=1)
     lines = ["# Harmless rewrites (no alarm expected)", "",
              "Each patch is a behaviour-preserving rewrite of /repo; the pinned suite passes with it and every quick check must exit 0.", "",
              "| patch | suite | checks exit 0 | alarms |", "|---|---|---|---|"]
